@@ -74,6 +74,8 @@ func main() {
 				out.WriteByte('\t')
 				out.WriteString(obs.String())
 				out.WriteByte('\n')
+				// flush per case: when the process dies on the next case, what was observed so far survives
+				out.Flush()
 			}
 		}
 		if err != nil {
